@@ -18,7 +18,7 @@ INFO = {
             "Held on the generated call histories x fault scripts; the relay knows which requests it forwarded, so executions == forwarded is an equality. Timing-shaped clauses are re-confirmed before being reported."),
     "C04": ("§2 C04", "audit-hook sandbox monitor + reachable-type walk + bait classes over hostile payload trees on all decode paths",
             "Held on the generated payload trees; the audit hook sees import/exec/open/socket/subprocess events of the interpreter. Trusted: CPython's audit events cover the side effects of interest."),
-    "C05": ("§2 C05", "hostile raw clients (structure-aware mutations, stalled / TLS / plaintext-on-TLS / UDP-datagram clients, oneway piles) against live daemons with concurrent witness clients; liveness and accounting probes",
+    "C05": ("§2 C05", "hostile raw clients (structure-aware mutations, stalled / TLS / plaintext-on-TLS / UDP-datagram / pipelining clients, oneway piles, hostile trace ids) against live daemons with concurrent witness clients that check the results and the annotations of their replies; liveness and accounting probes",
             "Held on the hostile streams sent; liveness is read from the threads themselves, accounting from pool/selector state. Bounded-progress restatement of 'still accepts'."),
     "C06": ("§2 C06", "three-way differential: repo encoder/decoder vs independent reference codec over generated and mutated messages; byte-counting fake socket",
             "Held on the generated field tuples and hostile strings; reference codec written from the docstring is the second opinion."),
